@@ -73,10 +73,11 @@ Definition rw_open (n : node) : bool := existsb is_open_rw (txs n).
 Definition any_open (n : node) : bool := existsb tx_open (txs n).
 
 (* Manager.BeginTransaction: a read-write transaction takes the lock exclusively, a read-only
-   one shares it. guarded = through EngineFacade.BeginTransaction (which forces read-only on a
-   read-only engine); unguarded = straight on the transaction manager. *)
-Definition begin_tx (n : node) (remote guarded want_ro : bool) : node * res :=
-  let r := if guarded && ro n then true else want_ro in
+   one shares it. Every begin a client can reach — EngineFacade.BeginTransaction and, since
+   /repo b9d5905, the manager handed out by GetTransactionManager (guardedTxManager) — forces
+   read-only on a read-only engine. *)
+Definition begin_tx (n : node) (remote want_ro : bool) : node * res :=
+  let r := if ro n then true else want_ro in
   if (if r then rw_open n else any_open n) then (n, RBlocked)
   else (set_txs n (txs n ++ [mkTx (if r then TxRO else TxRW) [] true remote]), ROk).
 
@@ -147,7 +148,7 @@ Inductive cop :=
 (* gRPC service *)
 | SPut (k v : bytes) | SDel (k : bytes) | SBatch (ops : list bop) | SBegin (want_ro : bool)
 | SCompact (force : bool)
-(* GetTransactionManager().BeginTransaction: not behind the facade's guard *)
+(* GetTransactionManager().BeginTransaction: the accessor path (guarded since b9d5905) *)
 | CLeakBegin (want_ro : bool)
 (* an entry point the model has no constructor for, described by its row of gen/Api.v *)
 | CGeneric (mutates guarded : bool).
@@ -170,9 +171,8 @@ Definition step_client (n : node) (c : cop) : node * res :=
       if ro n then (n, RRoErr) else let x := wr (del (eng n) k) in (set_eng n (fst x), snd x)
   | CBatch ops =>
       if ro n then (n, RRoErr) else let x := wr (apply_batch (eng n) ops) in (set_eng n (fst x), snd x)
-  | CBegin w => begin_tx n false true w
-  | SBegin w => begin_tx n true true w
-  | CLeakBegin w => begin_tx n false false w
+  | CBegin w | CLeakBegin w => begin_tx n false w
+  | SBegin w => begin_tx n true w
   | CTxPut h k v => tx_write n h (k, Some v)
   | CTxDel h k => tx_write n h (k, None)
   | CTxCommit h => tx_commit_h n h
@@ -225,32 +225,25 @@ Definition apply_eng (e : st) (r : rop) : st * res :=
   | RSync => (flush e, ROk)
   end.
 
-(* EngineApplier.Apply run to completion.
-   read-only engine: PutInternal / DeleteInternal (no flag); Merge = SetReadOnly(false);
-   engine.Put; SetReadOnly(true).  writable engine: engine.Put / engine.Delete. *)
+(* EngineApplier.Apply: one facade call in every branch.
+   read-only engine: PutInternal (put and, since /repo 574c666, merge) / DeleteInternal — the
+   flag is neither read nor written.  writable engine: engine.Put / engine.Delete. *)
 Definition step_repl (n : node) (r : rop) : node * res :=
   let x := apply_eng (eng n) r in
-  (set_eng n (fst x), snd x).     (* the flag ends as it started in every branch *)
+  (set_eng n (fst x), snd x).
 
 (* ---------- interleavings: atomic actions ---------- *)
 
-(* Apply of a Merge entry on a read-only engine is three calls on the facade; other threads
-   may run between them *)
 Inductive act :=
 | AClient (c : cop)
-| ARepl (r : rop)                 (* an Apply / Sync that runs as one facade call *)
-| AMergeOpen                      (* SetReadOnly(false) *)
-| AMergePut (k v : bytes)         (* engine.Put — the guarded, client-facing one *)
-| AMergeClose                     (* SetReadOnly(true) *)
-| ASetRO (b : bool).              (* EngineFacade.SetReadOnly called by anyone else *)
+| ARepl (r : rop)                 (* an Apply / Sync: one facade call *)
+| ASetRO (b : bool).              (* EngineFacade.SetReadOnly (the replication manager at start-up;
+                                     nothing else in the module calls it) *)
 
 Definition step_act (n : node) (a : act) : node * res :=
   match a with
   | AClient c => step_client n c
   | ARepl r => step_repl n r
-  | AMergeOpen => (set_ro n false, ROk)
-  | AMergePut k v => step_client n (CPut k v)
-  | AMergeClose => (set_ro n true, ROk)
   | ASetRO b => (set_ro n b, ROk)
   end.
 
@@ -262,12 +255,9 @@ Fixpoint run_acts (n : node) (l : list act) : node * list res :=
               (fst y, snd x :: snd y)
   end.
 
-(* how Apply(entry) unfolds into facade calls, given the flag it reads first *)
-Definition expand (is_ro : bool) (r : rop) : list act :=
-  match r with
-  | RMergeE k v => if is_ro then [AMergeOpen; AMergePut k v; AMergeClose] else [ARepl r]
-  | _ => [ARepl r]
-  end.
+(* how Apply(entry) unfolds into facade calls, given the flag it reads first: a single call,
+   whatever the entry type and the flag *)
+Definition expand (is_ro : bool) (r : rop) : list act := [ARepl r].
 
 (* ---------- node information ---------- *)
 
